@@ -13,15 +13,18 @@ from typing import Any, Callable
 
 import networkx as nx
 
+from y0.algorithm.conditional_independencies import are_d_separated
 from y0.algorithm.identify import Identification, Query, Unidentifiable, identify, identify_outcomes
 from y0.dsl import Expression, Intervention
 from y0.graph import NxMixedGraph, get_nodes_in_directed_paths
+from y0.struct import DSeparationJudgement
 
 import world
 from kernel import HarnessError, Sched
-from models import MG, identifiable
+from models import MG, identifiable, m_separated
 from ser import (
     digest,
+    ser_var,
     fingerprint_public,
     graph_canonical,
     graph_fingerprint,
@@ -57,6 +60,8 @@ GRAPH_VALUED = {
     "moralize",
 }
 ID_OPS = ("identify_outcomes", "identify", "identify_fresh")
+DSEP_OPS = ("are_d_separated",)
+JUDGED = {"C14": SURGERY_OPS, "C02": ID_OPS, "C04": DSEP_OPS}
 SENTINEL = "ZZsentinel"
 
 
@@ -153,6 +158,27 @@ def gen_surgery_op(rng: random.Random, target: list, m: MG, ops: tuple = SURGERY
     return None
 
 
+def gen_dsep_op(rng: random.Random, target: list, m: MG) -> dict | None:
+    """Draw one separation query (a, b | C) on the model graph m (acyclic, >= 2 nodes)."""
+    nodes = sorted(m.N)
+    if len(nodes) < 2 or not m.is_acyclic() or not _is_plain(m):
+        return None
+    a, b = rng.sample(nodes, 2)
+    rest = [x for x in nodes if x not in (a, b)]
+    r = rng.random()
+    if r < 0.15 or not rest:
+        C: list[str] = []
+    elif r < 0.45:
+        # bias: condition on endpoints of bidirected edges and on their descendants (colliders through latents)
+        bi = sorted({x for e in m.B for x in e} - {a, b})
+        pool = sorted(set(bi) | (m.descendants_inclusive(bi) - {a, b})) or rest
+        C = rng.sample(pool, rng.randint(1, len(pool)))
+    else:
+        C = rng.sample(rest, rng.randint(0, len(rest)))
+    c = rng.choice(("set", "frozenset", "list", "tuple", "none" if not C else "list", "dup-list"))
+    return {"op": "are_d_separated", "t": target, "a": {"a": a, "b": b, "C": C, "c": c, "sym": rng.random() < 0.35}}
+
+
 # =========================================================================== model pass
 
 
@@ -195,6 +221,10 @@ def model_op(spec: dict, m: MG) -> tuple[str, Any, MG | None]:
         return "list", ("pre", sorted(a["S"]), a.get("order")), None
     if op == "get_nodes_in_directed_paths":
         return "set", sorted(m.nodes_in_directed_paths(a["S"], a["T"])), None
+    if op == "are_d_separated":
+        left, right = sorted([a["a"], a["b"]])
+        return "dsep", {"sep": m_separated(m, a["a"], a["b"], a["C"]), "left": left, "right": right,
+                        "cond": sorted(set(a["C"]))}, None
     raise ValueError(op)
 
 
@@ -214,6 +244,11 @@ def op_valid(spec: dict, m: MG) -> bool:
         return False
     if op == "get_nodes_in_directed_paths":
         if not a["S"] or not a["T"] or set(a["S"]) & set(a["T"]):
+            return False
+    if op == "are_d_separated":
+        if a["a"] == a["b"] or not {a["a"], a["b"]} <= N or not set(a["C"]) <= N - {a["a"], a["b"]}:
+            return False
+        if not m.is_acyclic() or not _is_plain(m):
             return False
     return True
 
@@ -320,6 +355,17 @@ def prepare_surgery(spec: dict, tgt: NxMixedGraph) -> Callable[[], Any]:
         s = _mkarg(a["S"], a["cS"])
         t = _mkarg(a["T"], a["cT"])
         return lambda: get_nodes_in_directed_paths(tgt, s, t)
+    if op == "are_d_separated":
+        va, vb = mkvar(a["a"]), mkvar(a["b"])
+        if a["c"] == "none":
+            cond = None
+        elif a["c"] == "dup-list":
+            cond = [mkvar(n) for n in a["C"]] + [mkvar(n) for n in a["C"][:1]]
+        else:
+            cond = _mkarg(a["C"], a["c"])
+        if a.get("sym"):
+            return lambda: (are_d_separated(tgt, va, vb, conditions=cond), are_d_separated(tgt, vb, va, conditions=cond))
+        return lambda: (are_d_separated(tgt, va, vb, conditions=cond),)
     raise ValueError(op)
 
 
@@ -447,7 +493,7 @@ class CaseRun:
         # digests of the sequential baseline for the cross-worker history check
         if base is not None:
             self.result_values = {
-                f"{r}.{c}.{k}": (v[2] if self.prop == "C14" else v[2][0])
+                f"{r}.{c}.{k}": (v[2][0] if self.prop == "C02" else v[2])
                 for (r, c, k), v in sorted(base.items())
                 if v[0] == "ok" and v[3] and v[1] != "list" and v[2] != "badtype"
             }
@@ -491,6 +537,11 @@ class CaseRun:
                 if name in flagged:
                     continue
                 fp = graph_fingerprint(obj) if name[0] == "g" else query_fingerprint(obj)
+                if fp != shared_fp[name] and self.prop == "C04":
+                    # C04 says nothing about the caller's graph object; a modification shows up as a wrong verdict
+                    flagged.add(name)
+                    self._probe("shared-graph-modified(not-judged)")
+                    continue
                 if fp != shared_fp[name]:
                     flagged.add(name)
                     oracle = "O2" if self.prop == "C14" else "O3"
@@ -665,7 +716,7 @@ class CaseRun:
         ops = self.stats["ops"]
         ops[op] = ops.get(op, 0) + 1
         kind, exp, rm, m = e
-        judged = (self.prop == "C14" and op in SURGERY_OPS) or (self.prop == "C02" and op in ID_OPS)
+        judged = op in JUDGED[self.prop]
         if status == "abort":
             results[key] = ("abort",)
             return
@@ -711,6 +762,9 @@ class CaseRun:
             if not judged:
                 return
             # ---- O1: reference model
+            if kind == "dsep":
+                self.judge_dsep(pname, key, spec, got, exp, m)
+                return
             if kind == "list":
                 why = check_list_result(exp, got, m)
                 if why:
@@ -795,6 +849,30 @@ class CaseRun:
             elif b[2][1] != est:
                 self.viol("O4", op, "estimand-differs-from-sequential", pname, key=list(key), spec=spec,
                           got=est, sequential=b[2][1])
+
+    def judge_dsep(self, pname: str, key: tuple, spec: dict, got: list, exp: dict, m: MG) -> None:
+        """C04 in-run oracles: O1 verdict = m-separation, O2 symmetric in (a, b), O3 faithful canonical record."""
+        op = spec["op"]
+        self._probe("dsep.model." + ("separated" if exp["sep"] else "connected"))
+        if spec["a"]["C"] and any(set(e) & set(spec["a"]["C"]) for e in m.B):
+            self._probe("dsep.conditioned-on-bidirected-endpoint")
+        for j in got:
+            if j["sep"] != exp["sep"]:
+                self.viol("O1", op, "verdict-%s-model-%s" % (("separated" if j["sep"] else "connected"),
+                                                            ("separated" if exp["sep"] else "connected")),
+                          pname, key=list(key), spec=spec, got=j, model=m.canonical())
+                return
+            if j["truth"] != j["sep"]:
+                self.viol("O3", op, "bool-differs-from-separated-field", pname, key=list(key), spec=spec, got=j)
+                return
+            if (j["left"], j["right"], j["cond"]) != (exp["left"], exp["right"], exp["cond"]):
+                self.viol("O3", op, "record-fields-differ-from-query", pname, key=list(key), spec=spec, got=j, expected=exp)
+                return
+            if not j["canonical"] or j["cond_type"] != "tuple":
+                self.viol("O3", op, "record-not-canonical", pname, key=list(key), spec=spec, got=j)
+                return
+        if len(got) == 2 and got[0] != got[1]:
+            self.viol("O2", op, "asymmetric-in-a-b", pname, key=list(key), spec=spec, got=got)
 
     def check_eq(self, pname: str, key: tuple, spec: dict, val: NxMixedGraph, rm: MG) -> None:
         """O6: the __eq__ everybody relies on agrees with the model."""
@@ -901,6 +979,8 @@ def _type_ok(kind: str, val: Any) -> bool:
         return isinstance(val, (set, frozenset, list)) and all(isinstance(x, (set, frozenset)) for x in val)
     if kind == "list":
         return isinstance(val, (list, tuple))
+    if kind == "dsep":
+        return isinstance(val, tuple) and all(isinstance(j, DSeparationJudgement) for j in val)
     return True
 
 
